@@ -156,5 +156,15 @@ where
     std::iter::once(input.collect::<Vec<_>>())
 }
 
+/// Public entry point to the registry computation with a caller supplied crate loader
+/// (verification hook)
+#[cfg(feature = "crux_verif")]
+pub fn verif_run<F>(crate_name: &str, load: F) -> Result<Registry>
+where
+    F: Fn(&str) -> Result<Crate>,
+{
+    run(crate_name, load)
+}
+
 #[cfg(test)]
 mod tests;
